@@ -404,7 +404,7 @@ impl KotoVm {
 
         let old_frame_count = self.call_stack.len();
 
-        self.call_callable(
+        if let Err(error) = self.call_callable(
             CallInfo {
                 result_register: Some(result_register),
                 frame_base,
@@ -414,7 +414,11 @@ impl KotoVm {
                 packed_arg_count: 0,
             },
             function,
-        )?;
+        ) {
+            // Remove the registers that were prepared for the call before returning the error
+            self.truncate_registers(result_register);
+            return Err(error);
+        }
 
         let result = if self.call_stack.len() == old_frame_count {
             // If the call stack is the same size as before calling call_callable,
@@ -451,6 +455,16 @@ impl KotoVm {
 
     /// Provides the result of running a unary operation on a KValue
     pub fn run_unary_op(&mut self, op: UnaryOp, value: KValue) -> Result<KValue> {
+        let register_count = self.next_register();
+        let result = self.run_unary_op_impl(op, value);
+        if result.is_err() {
+            // Remove the registers that were added while attempting to run the op
+            self.truncate_registers(register_count);
+        }
+        result
+    }
+
+    fn run_unary_op_impl(&mut self, op: UnaryOp, value: KValue) -> Result<KValue> {
         use UnaryOp::*;
 
         let old_frame_count = self.call_stack.len();
@@ -490,6 +504,16 @@ impl KotoVm {
 
     /// Provides the result of running a binary operation on a pair of Values
     pub fn run_binary_op(&mut self, op: BinaryOp, lhs: KValue, rhs: KValue) -> Result<KValue> {
+        let register_count = self.next_register();
+        let result = self.run_binary_op_impl(op, lhs, rhs);
+        if result.is_err() {
+            // Remove the registers that were added while attempting to run the op
+            self.truncate_registers(register_count);
+        }
+        result
+    }
+
+    fn run_binary_op_impl(&mut self, op: BinaryOp, lhs: KValue, rhs: KValue) -> Result<KValue> {
         let old_frame_count = self.call_stack.len();
 
         let result_register = self.next_register();
